@@ -29,6 +29,9 @@ RULE = ('Hypothesis-generated programs (in / with / let / if / unless / try '
         'still resolves names.  Non-trivial: the fault fired at stack depth '
         '>= entry + 2, or it fired and was caught inside the program.  '
         'Distinct = hash of (program, level, k, kind).')
+RULE += (
+         'Batch-link forms (previous / next else parts, batch bodies) '
+         'among the enumerated blocks. ')
 ASSUMPTIONS = [
     'faults are exceptions / dtml-return raised by namespace values (the '
     'quantifier of the property); RecursionError from exhausting the '
